@@ -1,5 +1,3 @@
-//go:build wip_c09
-
 package props
 
 import (
@@ -68,14 +66,14 @@ func runC09(c *kit.Ctx) {
 // ---------------------------------------------------------------------------
 // Flow helper: kit.Std plus (i) role tags on variables that hold the result
 // of an anchor call ("bv:<var>" = role; kit.Std clears the tag on any other
-// assignment), (ii) a state-aware atomizer, (iii) role-tagged error variables
-// in bare `err != nil` tests (kit.Std only records those for variables it can
-// track; handlers assign `err` inside closures).
+// assignment), (ii) a state-aware atomizer installed as CondEval.Leaf, so
+// that role-tagged error / bool / slice variables become rule atoms wherever
+// they are tested (kit.Std itself only refines error variables it can track;
+// handlers assign `err` inside closures).
 
 type c09Flow struct {
 	f    *kit.Func
 	st   *kit.Std
-	cur  kit.S
 	info *types.Info
 	// roles names the roles of the results of an anchor call (nil = not an anchor).
 	roles func(call *ast.CallExpr) []string
@@ -159,9 +157,8 @@ func (fl *c09Flow) tag(s kit.S, lhs []ast.Expr, call *ast.CallExpr) kit.S {
 
 func (fl *c09Flow) client() kit.Client {
 	st := fl.st
-	st.Eval.Atom = func(e ast.Expr) (string, bool, bool) {
-		s := fl.cur
-		// role-tagged error variable inside a compound condition
+	atomAt := func(e ast.Expr, s kit.S) (string, bool, bool) {
+		// role-tagged error variable (bare test or inside a compound condition)
 		if x, trueIsErr, ok := kit.ErrCheck(fl.info, e); ok {
 			if r := fl.roleOf(x, s); r != "" {
 				return r, !trueIsErr, true
@@ -250,33 +247,33 @@ func (fl *c09Flow) client() kit.Client {
 		st.OnBranch = fl.onBranch
 	}
 	cl := st.Client()
+	// Leaves are decided on the state threaded through the condition: rule
+	// atoms first (valued lazily, recorded under "a:<id>"), then kit.Std's own
+	// error-variable handling.
+	stdLeaf := st.Eval.Leaf
+	st.Eval.Leaf = func(e ast.Expr, s kit.S) (t, f []kit.S, handled bool) {
+		if id, neg, ok := atomAt(e, s); ok {
+			k := "a:" + id
+			if s.Has(k) {
+				if (s.Get(k) == "T") != neg {
+					return []kit.S{s}, nil, true
+				}
+				return nil, []kit.S{s}, true
+			}
+			sT, sF := s.Set(k, "T"), s.Set(k, "F")
+			if neg {
+				return []kit.S{sF}, []kit.S{sT}, true
+			}
+			return []kit.S{sT}, []kit.S{sF}, true
+		}
+		if stdLeaf != nil {
+			return stdLeaf(e, s)
+		}
+		return nil, nil, false
+	}
 	orig := cl.Cond
 	cl.Cond = func(cond ast.Expr, s kit.S) (t, f []kit.S) {
-		fl.cur = s
-		handled := false
-		if x, trueIsErr, ok := kit.ErrCheck(fl.info, cond); ok {
-			if r := fl.roleOf(x, s); r != "" {
-				handled = true
-				mk := func(isErr bool) []kit.S {
-					v := "F"
-					if isErr {
-						v = "T"
-					}
-					if cur := s.Get("a:" + r); cur != "" && cur != v {
-						return nil
-					}
-					return []kit.S{s.Set("a:"+r, v)}
-				}
-				if trueIsErr {
-					t, f = mk(true), mk(false)
-				} else {
-					t, f = mk(false), mk(true)
-				}
-			}
-		}
-		if !handled {
-			t, f = orig(cond, s)
-		}
+		t, f = orig(cond, s)
 		if fl.afterCond != nil {
 			t, f = fl.afterCond(cond, t, f)
 		}
@@ -287,7 +284,6 @@ func (fl *c09Flow) client() kit.Client {
 
 // eval evaluates a boolean expression (e.g. a returned value) under s.
 func (fl *c09Flow) eval(e ast.Expr, s kit.S) (t, f []kit.S) {
-	fl.cur = s
 	return fl.st.Eval.Eval(e, s)
 }
 
